@@ -744,7 +744,12 @@ func (c *c10World) opSet(h *c10Handle) bool {
 		return false
 	}
 	if tg.kind == tgField && tg.f.Card != cSingle {
-		return false // whole lists/maps are not set through SetByPath (no documented constructor)
+		// a whole list / map is inserted where the field is absent, with a node fetched (GetByPath) from another
+		// message of the same type - root level only
+		if tg.exists || len(tg.steps) > 0 || !t.Chance(1, 2, "set.wholecontainer") {
+			return false
+		}
+		return c.opSetWhole(h, tg)
 	}
 	if tg.kind == tgEntry && !tg.exists && !c.sw.InsertMapKey {
 		return false
@@ -856,6 +861,57 @@ func (c *c10World) opSet(h *c10Handle) bool {
 	}
 	pModelSet(tg, v)
 	c.countWidths(before, c.ancestorSizes(tg), facts)
+	w.Count("op_" + shape)
+	w.Sig("op:" + shape)
+	c.verify(shape, h, facts)
+	return true
+}
+
+// opSetWhole inserts a whole repeated / map field that is absent from h.
+func (c *c10World) opSetWhole(h *c10Handle, tg *c10Target) bool {
+	w, t := c.w, c.w.T
+	f := tg.f
+	g := &pvgen{t: t, s: c.sch, o: pvgenOpts{MaxElems: 3, MaxStr: 24, Depth: 1, PresentPct: 70, EmptyMsgs: c.sw.EmptyMsgs, KeyMaxInt63: true, NoNegZero: true}, nodes: 12, payload: 300}
+	donor := newPMsgVal(tg.holder.T)
+	dfv := &donor.F[f.Idx]
+	n := 1 + t.Intn(3, "set.whole.n")
+	for j := 0; j < n; j++ {
+		if f.Card == cMap {
+			k := g.key(f, "set.whole.key")
+			if dfv.findKey(k) >= 0 {
+				continue
+			}
+			dfv.MK = append(dfv.MK, k)
+			dfv.MV = append(dfv.MV, g.elem(f, 1, "set.whole.mv"))
+		} else {
+			dfv.L = append(dfv.L, g.elem(f, 1, "set.whole.el"))
+		}
+	}
+	g.fixEmptyMsgs(donor, 1)
+	src := generic.NewRootValue(c.desc, c.sch.refEncode(donor)).GetByPath(pathOfField(f, false))
+	if src.IsError() {
+		w.Logf("  whole %s: donor field not readable: %v", f.Name, src.Error())
+		return false
+	}
+	facts := c.baseFacts(h)
+	shape := "set-whole-list"
+	if f.Card == cMap {
+		shape = "set-whole-map"
+	}
+	facts["op"] = shape
+	op := fmt.Sprintf("%s.SetByPath %s = whole container of %d (node fetched from another message)", h.name, tg, n)
+	w.NextOp(op)
+	w.opFacts = facts
+	exist, err := h.v.SetByPath(src.Fork().Node, tg.path()...)
+	w.opFacts = nil
+	if err != nil {
+		w.Failf("valid-op-rejected:"+shape, facts, "%s returned an error: %v", op, err)
+	}
+	if exist {
+		w.Failf("wrong-exist:"+shape, facts, "%s returned exist=true for an absent field", op)
+	}
+	hfv := tg.fv()
+	hfv.L, hfv.MK, hfv.MV = cloneVals(dfv.L), cloneVals(dfv.MK), cloneVals(dfv.MV)
 	w.Count("op_" + shape)
 	w.Sig("op:" + shape)
 	c.verify(shape, h, facts)
